@@ -48,7 +48,7 @@ def _observer_class():
     return Rec
 
 
-def build(driver, seed, logger=True, default_interval=1):
+def build(driver, seed, logger=True, default_interval=1, late_logger=False):
     from quansino.mc.canonical import Canonical
     from quansino.mc.fbmc import ForceBias
     from quansino.mc.gcmc import GrandCanonical
@@ -58,7 +58,7 @@ def build(driver, seed, logger=True, default_interval=1):
 
     log, traj = io.StringIO(), io.StringIO()
     lkw = dict(trajectory=traj, logging_interval=default_interval)
-    if logger:
+    if logger and not late_logger:
         lkw["logfile"] = log
     pos = np.array([[1.0, 1.2, 0.9], [3.1, 2.2, 4.0], [4.4, 4.9, 2.1]])
     atoms = Atoms("Ar3", positions=pos, cell=[6.0] * 3, pbc=True)
@@ -127,6 +127,13 @@ def model_calls(iv, total):
 def task(arg):
     driver, seed = arg["driver"], arg["seed"]
     with_logger, div = arg.get("logger", True), arg.get("default_interval", 1)
+    late = arg.get("late_logger", False)
+
+    def attach_logger(sim, log):
+        """The user assigns the log after the first (possibly zero-length) run call."""
+        sim.logging_interval = div
+        sim.default_logger = log
+        sim.default_logger.add_mc_fields(sim)
     hows = ["run", "irun"] + ([] if driver == "ForceBias" else ["srun"])
     counters = {"evaluations": 0, "nontrivial": 0, "executions": 0}
     viol, seen = [], {}
@@ -141,7 +148,9 @@ def task(arg):
 
     def reference(total):
         if total not in refs:
-            sim, atoms, log, traj, recs = build(driver, seed, with_logger, div)
+            sim, atoms, log, traj, recs = build(driver, seed, with_logger, div, late)
+            if late:
+                attach_logger(sim, log)
             sim.run(total)
             refs[total] = observe(sim, atoms, log, traj, recs)
             sim.close()
@@ -158,12 +167,14 @@ def task(arg):
                 counters["executions"] += 1
                 rep = {"check": PID, "func": "task", "arg": {**arg, "lengths": [L], "only": [list(seq), list(assign)]}}
                 where = f"{driver}: calls {list(zip(assign, seq))} default observers: logger={with_logger} interval={div}"
-                sim, atoms, log, traj, recs = build(driver, seed, with_logger, div)
+                sim, atoms, log, traj, recs = build(driver, seed, with_logger, div, late)
                 zero_first = seq[0] == 0 and total > 0
                 kind = "zero-length-call-first" if zero_first else "zero-length-call" if 0 in seq else "split" if L > 1 else "single"
                 try:
                     bad_count = None
-                    for how, n in zip(assign, seq):
+                    for ci, (how, n) in enumerate(zip(assign, seq)):
+                        if late and ci == 1:
+                            attach_logger(sim, log)
                         before = sim.step_count
                         k = do_call(sim, how, n)
                         if sim.step_count - before != n or (k is not None and k != n):
@@ -194,10 +205,13 @@ def task(arg):
                     add(f"C15/{driver}/{kind}/observer-schedule/{'positive' if iv > 0 else 'negative'}-interval", f"observer with interval {iv} called at steps {model_bad[1]}, model says {model_bad[2]}; {where}", rep)
                     continue
                 ndef = len(model_calls(div, total))
-                if with_logger and headers != [0]:
+                late_skip = late  # a log attached after the step-0 call gets no header by design: only the other observers are judged
+                if late_skip:
+                    pass
+                elif with_logger and headers != [0]:
                     add(f"C15/{driver}/{kind}/header-not-once-first", f"header lines at {headers} of {len(lines)} log lines; {where}", rep)
                     continue
-                if with_logger and len(lines) != 1 + ndef:
+                if not late_skip and with_logger and len(lines) != 1 + ndef:
                     add(f"C15/{driver}/{kind}/default-logger-schedule", f"{len(lines) - 1} log rows for {total} steps, model says {ndef} (logging_interval {div}); {where}", rep)
                     continue
                 nframes = sum(1 for l in got["traj"].splitlines() if l.startswith("Lattice") or "Properties=" in l)
@@ -210,6 +224,8 @@ def task(arg):
                 if d:
                     diffs.append("atoms:" + ",".join(d))
                 for k in ("step_count", "log", "traj", "calls"):
+                    if k == "log" and late_skip:
+                        continue
                     if got[k] != ref[k]:
                         diffs.append(k)
                 if diffs:
@@ -228,6 +244,7 @@ def run(tier, seed):
             for L in (1, 2, 3):
                 args.append({"driver": drv, "seed": s, "lengths": [L]})
         # default observers without a logger / with other cadences (also negative: one-shot)
+        args.append({"driver": drv, "seed": seeds[0], "lengths": [2], "late_logger": True})
         for lg, div in ((False, 1), (True, 2), (True, -2), (False, -1)):
             for L in (1, 2) if tier == "quick" else (1, 2, 3):
                 args.append({"driver": drv, "seed": seeds[0], "lengths": [L], "logger": lg, "default_interval": div})
